@@ -3,6 +3,7 @@ From Coq Require Import List String.
 From VQ.Gen Require Import w_rvq.
 Import ListNotations.
 Open Scope string_scope.
-Lemma pin_w_rvq : w_rvq =
+Definition pinned_w_rvq : list string :=
   ["ResidualVQ.forward:shared_layer:expire_codes_"].
+Lemma pin_w_rvq : w_rvq = pinned_w_rvq.
 Proof. reflexivity. Qed.
